@@ -133,10 +133,11 @@ type Config struct {
 	StallProb   float64 // probability that a scheduling point stalls the task for a while
 	StallMax    time.Duration
 	MaxSteps    uint64
-	Trace       bool   // keep the textual event log
-	EventFirst  bool   // seq policy: due events before tasks (default tasks first)
-	SelectOrder string // "" = seeded permutation of ready cases; "source" / "reverse" = fixed preference
-	SortedMaps  bool   // iterate maps in sorted key order instead of a seeded permutation
+	Trace       bool    // keep the textual event log
+	EventFirst  bool    // seq policy: due events before tasks (default tasks first)
+	UnlockYield float64 // probability that releasing a lock is a scheduling point too (check-then-act after unlock)
+	SelectOrder string  // "" = seeded permutation of ready cases; "source" / "reverse" = fixed preference
+	SortedMaps  bool    // iterate maps in sorted key order instead of a seeded permutation
 }
 
 type Sim struct {
@@ -152,10 +153,11 @@ type Sim struct {
 	Steps    uint64
 	Switches uint64
 
-	sched  *Rand
-	selr   *Rand
-	stallr *Rand
-	maps   map[string]*Rand
+	sched   *Rand
+	selr    *Rand
+	stallr  *Rand
+	unlockr *Rand
+	maps    map[string]*Rand
 
 	inspect bool
 	killing bool
@@ -198,6 +200,7 @@ func New(cfg Config) *Sim {
 		sched:    NewRand(cfg.Seed, "sched"),
 		selr:     NewRand(cfg.Seed, "select"),
 		stallr:   NewRand(cfg.Seed, "stall"),
+		unlockr:  NewRand(cfg.Seed, "unlock"),
 		maps:     map[string]*Rand{},
 		digest:   sha256.New(),
 		Stats:    map[string]int{},
